@@ -8,19 +8,28 @@ def Thread.stuck (t : Thread T E) : Bool := !t.canRun && !t.done
 
 /-- no finished thread is waiting in a queue (`finish_thread_turn` never enqueues one) -/
 def NoDone (r : Runtime T V E) : Prop :=
-  (∀ t ∈ r.runQueue, t.done = false) ∧ (∀ t ∈ r.newThreads, t.done = false)
+  (∀ t ∈ r.runQueue, t.gone = false) ∧ (∀ t ∈ r.newThreads, t.gone = false)
 
 /-- every queued thread is blocked (pending host call or error) and nothing waits to be enqueued -/
 def Stuck (r : Runtime T V E) : Prop :=
-  r.newThreads = [] ∧ ∀ t ∈ r.runQueue, t.canRun = false ∧ t.done = false
+  r.newThreads = [] ∧ ∀ t ∈ r.runQueue, t.canRun = false ∧ t.gone = false
 
-theorem canRun_done {t : Thread T E} (h : t.canRun = true) : t.done = false := by
+theorem canRun_done {t : Thread T E} (h : t.canRun = true) : t.gone = false := by
   unfold Thread.canRun at h
+  unfold Thread.gone
+  cases hd : t.done <;> cases he : t.err <;> simp_all
+
+theorem gone_done {t : Thread T E} (h : t.gone = false) : t.done = false := by
+  unfold Thread.gone at h
   cases hd : t.done <;> simp_all
 
-theorem ftt_notDone (r : Runtime T V E) (th : Thread T E) (h : th.done = false) :
+theorem canRun_done' {t : Thread T E} (h : t.canRun = true) : t.done = false := gone_done (canRun_done h)
+
+theorem ftt_notDone (r : Runtime T V E) (th : Thread T E) (h : th.gone = false) :
     finishThreadTurn r th = ({ r with runQueue := r.runQueue ++ [th] }, false) := by
-  simp [finishThreadTurn, h]
+  unfold Thread.gone at h
+  unfold finishThreadTurn
+  cases hm : th.isMain <;> cases hd : th.done <;> cases he : th.err <;> simp_all
 
 @[simp] theorem ftt_newThreads (r : Runtime T V E) (th : Thread T E) :
     (finishThreadTurn r th).1.newThreads = r.newThreads := by
@@ -45,8 +54,8 @@ theorem drain_newThreads (r : Runtime T V E) (h : (drainNewThreads r).2 = false)
     (drainNewThreads r).1.newThreads = [] := drainAux_newThreads _ _ h
 
 /-- `finish_thread_turn` never puts a finished thread into the run queue -/
-theorem ftt_noDone (r : Runtime T V E) (th : Thread T E) (h : ∀ t ∈ r.runQueue, t.done = false) :
-    ∀ t ∈ (finishThreadTurn r th).1.runQueue, t.done = false := by
+theorem ftt_noDone (r : Runtime T V E) (th : Thread T E) (h : ∀ t ∈ r.runQueue, t.gone = false) :
+    ∀ t ∈ (finishThreadTurn r th).1.runQueue, t.gone = false := by
   unfold finishThreadTurn
   split
   · exact h
@@ -57,11 +66,12 @@ theorem ftt_noDone (r : Runtime T V E) (th : Thread T E) (h : ∀ t ∈ r.runQue
       simp only [List.mem_append, List.mem_singleton] at ht
       rcases ht with ht | rfl
       · exact h t ht
-      · cases hm : t.isMain <;> cases hd : t.done <;> simp_all
+      · unfold Thread.gone
+        cases hm : t.isMain <;> cases hd : t.done <;> cases he : t.err <;> simp_all
 
 theorem drainAux_noDone (ts : List (Thread T E)) (r : Runtime T V E)
-    (h : ∀ t ∈ r.runQueue, t.done = false) :
-    ∀ t ∈ (drainAux r ts).1.runQueue, t.done = false := by
+    (h : ∀ t ∈ r.runQueue, t.gone = false) :
+    ∀ t ∈ (drainAux r ts).1.runQueue, t.gone = false := by
   induction ts generalizing r with
   | nil => simpa [drainAux] using h
   | cons t rest ih =>
@@ -72,7 +82,7 @@ theorem drainAux_noDone (ts : List (Thread T E)) (r : Runtime T V E)
 
 /-- `skipPhase` unfolded on a state where nothing waits to be enqueued and no queued thread is finished -/
 theorem skipPhase_succ (f k : Nat) (r : Runtime T V E) (th : Thread T E) (rest : List (Thread T E))
-    (hn : r.newThreads = []) (hq : r.runQueue = th :: rest) (hd : th.done = false)
+    (hn : r.newThreads = []) (hq : r.runQueue = th :: rest) (hd : th.gone = false)
     (hk : k < r.runQueue.length) :
     skipPhase (f + 1) k r =
       if th.canRun then .run th { r with runQueue := rest }
@@ -94,7 +104,7 @@ theorem skipPhase_succ (f k : Nat) (r : Runtime T V E) (th : Thread T E) (rest :
     there is none the loop ends with the queue `B ++ A`. -/
 theorem skipPhase_spec (f k : Nat) (r : Runtime T V E) (A B : List (Thread T E))
     (hn : r.newThreads = []) (hq : r.runQueue = A ++ B) (hk : B.length = k)
-    (hA : ∀ t ∈ A, t.done = false) (hf : A.length < f) :
+    (hA : ∀ t ∈ A, t.gone = false) (hf : A.length < f) :
     skipPhase f k r =
       match A.dropWhile (fun t => !t.canRun) with
       | [] => .exit { r with runQueue := B ++ A }
@@ -109,7 +119,7 @@ theorem skipPhase_spec (f k : Nat) (r : Runtime T V E) (A B : List (Thread T E))
       cases r; simp_all
     | cons th A' =>
       have hlen : k < r.runQueue.length := by simp [hq, hk]; omega
-      have hth : th.done = false := hA th (by simp)
+      have hth : th.gone = false := hA th (by simp)
       rw [skipPhase_succ f k r th (A' ++ B) hn (by simpa using hq) hth hlen]
       by_cases hc : th.canRun = true
       · simp [hc, List.dropWhile, List.takeWhile]
@@ -122,7 +132,7 @@ theorem skipPhase_spec (f k : Nat) (r : Runtime T V E) (A B : List (Thread T E))
 
 /-- at call entry / after an executed instruction (`skipped_threads = 0`) -/
 theorem skipPhase_zero (r : Runtime T V E) (hn : r.newThreads = [])
-    (hd : ∀ t ∈ r.runQueue, t.done = false) :
+    (hd : ∀ t ∈ r.runQueue, t.gone = false) :
     skipPhase (r.runQueue.length + r.newThreads.length + 1) 0 r =
       match r.runQueue.dropWhile (fun t => !t.canRun) with
       | [] => .exit r
@@ -171,7 +181,7 @@ theorem exec_runQueue (step : T → Action T V E) (r : Runtime T V E) (th : Thre
   split <;> rfl
 
 theorem exec_newThreads_noDone (step : T → Action T V E) (r : Runtime T V E) (th : Thread T E)
-    (h : ∀ t ∈ r.newThreads, t.done = false) : ∀ t ∈ (exec step r th).1.newThreads, t.done = false := by
+    (h : ∀ t ∈ r.newThreads, t.gone = false) : ∀ t ∈ (exec step r th).1.newThreads, t.gone = false := by
   unfold exec; split <;> try exact h
   · split <;> exact h
   · intro t ht
@@ -183,8 +193,8 @@ theorem exec_newThreads_noDone (step : T → Action T V E) (r : Runtime T V E) (
 theorem drain_noDone (r : Runtime T V E) (h : NoDone r) : NoDone (drainNewThreads r).1 := by
   refine ⟨drainAux_noDone _ _ h.1, ?_⟩
   -- the threads still waiting are a suffix of the old ones
-  have : ∀ (ts : List (Thread T E)) (r : Runtime T V E), (∀ t ∈ ts, t.done = false) →
-      ∀ t ∈ (drainAux r ts).1.newThreads, t.done = false := by
+  have : ∀ (ts : List (Thread T E)) (r : Runtime T V E), (∀ t ∈ ts, t.gone = false) →
+      ∀ t ∈ (drainAux r ts).1.newThreads, t.gone = false := by
     intro ts
     induction ts with
     | nil => intro r _; simp [drainAux]
@@ -335,15 +345,15 @@ theorem roundRobin_inv (step : T → Action T V E) (b : Nat) (r : Runtime T V E)
     exact loop_inv step b 0 _ (drain_newThreads r (by simpa using h)) (drain_noDone r hd)
 
 theorem noDone_new (m : T) : NoDone (Runtime.new m : Runtime T V E) := by
-  constructor <;> simp [Runtime.new]
+  constructor <;> simp [Runtime.new, Thread.gone]
 
 theorem serviceList_done {H : Type} (host : H → Nat → T → H × T) (h : H) (q : List (Thread T E))
-    (hq : ∀ t ∈ q, t.done = false) : ∀ t ∈ (serviceList host h q).2, t.done = false := by
+    (hq : ∀ t ∈ q, t.gone = false) : ∀ t ∈ (serviceList host h q).2, t.gone = false := by
   induction q generalizing h with
   | nil => simp [serviceList]
   | cons t q ih =>
     have ht := hq t (by simp)
-    have hq' : ∀ u ∈ q, u.done = false := fun u hu => hq u (by simp [hu])
+    have hq' : ∀ u ∈ q, u.gone = false := fun u hu => hq u (by simp [hu])
     unfold serviceList
     split
     · intro u hu
